@@ -76,6 +76,11 @@ func (enc *Encoder) writeTimePart(hour int, min int, sec int, nsec int) {
 }
 
 func (enc *Encoder) writeTime(t time.Time) {
+	if loc := t.Location(); loc != time.UTC && loc != time.Local {
+		// the format knows UTC and "the reader's local time" only: a time in
+		// any other zone is written as the same instant in UTC
+		t = t.UTC()
+	}
 	year, month, day := t.Date()
 	if year < 0 || year > 9999 {
 		// the format has exactly four year digits
